@@ -132,17 +132,33 @@ def strip_comments(txt):
     return ''.join(out)
 
 
-def grep_forbidden(modules_dirs=('MiVerif',)):
+def import_closure(module):
+    """all MiVerif.* / Driver.* modules a module depends on (itself included)"""
+    seen = []
+    todo = [module]
+    while todo:
+        m = todo.pop()
+        if m in seen:
+            continue
+        p = os.path.join(LEAN, *m.split('.')) + '.lean'
+        if not os.path.exists(p):
+            continue
+        seen.append(m)
+        for line in open(p):
+            mm = re.match(r'^\s*(?:public\s+)?import\s+((?:MiVerif|Driver)\.[\w.]+)', line)
+            if mm:
+                todo.append(mm.group(1))
+    return seen
+
+
+def grep_forbidden(module):
     hits = []
-    for d in modules_dirs:
-        for root, dn, fn in os.walk(os.path.join(LEAN, d)):
-            for f in fn:
-                if f.endswith('.lean'):
-                    p = os.path.join(root, f)
-                    txt = strip_comments(open(p).read())
-                    for ln, line in enumerate(txt.splitlines(), 1):
-                        if re.search(FORBIDDEN, line):
-                            hits.append('%s:%d: %s' % (os.path.relpath(p, LEAN), ln, line.strip()[:120]))
+    for m in import_closure(module):
+        p = os.path.join(LEAN, *m.split('.')) + '.lean'
+        txt = strip_comments(open(p).read())
+        for ln, line in enumerate(txt.splitlines(), 1):
+            if re.search(FORBIDDEN, line):
+                hits.append('%s:%d: %s' % (os.path.relpath(p, LEAN), ln, line.strip()[:120]))
     return hits
 
 
@@ -264,7 +280,7 @@ class Check:
         self.discharged = good
         for n, ax in bad.items():
             self.broken.append(('axioms of ' + n, ', '.join(ax)))
-        hits = grep_forbidden()
+        hits = grep_forbidden(module)
         for h in hits:
             self.broken.append(('forbidden construct', h))
         self.log('theorems %d, discharged %d, axiom audit %s' % (len(names), len(good), 'clean' if not bad and not hits else 'NOT clean'))
